@@ -141,8 +141,8 @@ type Lab struct {
 	// or a machine too loaded to schedule the harness itself cannot look like "nothing happened for the stall window".
 	beat, progressBeat int64
 	openWrites         int // storage writes begun and not yet returned (cont-check writes included)
-	objs         map[uuid.UUID]objInfo
-	notes        []string
+	objs               map[uuid.UUID]objInfo
+	notes              []string
 
 	// settings
 	settle  time.Duration
